@@ -545,5 +545,5 @@ pub fn run(ctx: &mut Ctx) {
 	ctx.assume("every class of the mappings has a target name (apply_nests_to_mappings requires it)");
 	ctx.assume("nests are acyclic; no nest names a class that only exists as a created enclosing class");
 	ctx.assume("an enclosing class created for a nest that is then rejected is tolerated (the statement is silent)");
-	ctx.run_sub("nesting", ctx.tier.pick(8000, 160_000), strategy, check);
+	ctx.run_sub("nesting", ctx.tier.pick(32000, 1600000), strategy, check);
 }
